@@ -20,8 +20,32 @@ def abs_high_nibble(case, rendered):
     return False
 
 
-def family(case, mn, py, rs, fields, rendered=""):
+BCD = {"DADL", "DSBL", "DSLL", "DSRL"}
+RUNS = {"ADCL", "SBCL", "DADL", "DSBL", "DSLL", "DSRL"}
+
+
+def mem0(case, a):
+    """initial content of address a for a wire case (explicit cells, instruction bytes at the fetch address, fill pattern)"""
+    hx, addr, _regs, mem, fill = case
+    if a in mem:
+        return mem[a]
+    if addr <= a < addr + len(hx) // 2:
+        return int(hx[2 * (a - addr):2 * (a - addr) + 2], 16)
+    return (a * 167 + fill * 13) % 256 if fill else 0
+
+
+def not_bcd(v):
+    return (v & 0x0F) > 9 or (v >> 4) > 9
+
+
+def family(case, mn, py, rs, fields, rendered="", model=None):
+    """root cause of a Rust/Python difference, decided from the case itself (encoding, state, the addresses the
+    instruction touches) - never from the differing values, so a new cause in the same mnemonic is not absorbed"""
     key = cpu.case_key(case)
+    k = key.lstrip("P")
+    bs = bytes.fromhex(case[0])
+    ob = bs[1:] if key.startswith("P") else bs          # opcode byte first
+    regs = case[2]
     if abs_high_nibble(case, rendered):
         return "rust_does_not_mask_absolute_address_to_20_bits"
     if fields == ["f_hi"]:
@@ -32,17 +56,43 @@ def family(case, mn, py, rs, fields, rendered=""):
         masked = {}
         for a, v in rs["w"].items():
             masked[a & 0xFFFFF if a < cpu.IMEM or a >= cpu.IMEM + 0x100 else a] = v
-        if masked == py["w"] and all(py[k] == rs[k] for k in cpu.REGS):
+        if masked == py["w"] and all(py[q] == rs[q] for q in cpu.REGS):
             return "rust_does_not_mask_absolute_address_to_20_bits"
     if mn == "RESET":
         return "reset_vector_address"
-    if mn in ("ADD", "SUB") and key.lstrip("P") in ("44", "45", "46", "4c", "4d", "4e"):
+    if mn in ("ADD", "SUB") and k in ("44", "45", "46", "4c", "4d", "4e"):
         return "register_pair_arithmetic_width_or_flags"
-    if mn == "CMPW" and key.lstrip("P") == "d6" or mn == "CMPP" and key.lstrip("P") == "d7":
+    if mn == "CMPW" and k == "d6" or mn == "CMPP" and k == "d7":
         return "compare_memory_with_register_of_other_width"
     touched = set(py["w"]) | set(rs["w"])
     if any(cpu.IMEM + 0xEC <= a <= cpu.IMEM + 0xEE for a in touched):
         return "instruction_overwrites_BP_PX_PY_it_addresses_with"
+    reads = list((model or {}).get("r", []))
+    data_reads = [a for a in reads if not cpu.IMEM + 0xEC <= a <= cpu.IMEM + 0xEE]
+    # counted (m),(n) / (n),A runs only have internal-memory operands
+    if mn in RUNS and any(a < cpu.IMEM for a in list(py["w"]) + data_reads):
+        return "counted_internal_memory_run_leaves_internal_memory"
+    if mn in ("DSLL", "DSRL") and regs.get("I", 0) >= 2:
+        return "decimal_shift_takes_carry_digit_from_the_byte_it_just_stored"
+    if mn in BCD and (any(not_bcd(mem0(case, a)) for a in data_reads) or (k in ("c5", "d5") and not_bcd(regs.get("BA", 0) & 0xFF))):
+        return "bcd_operation_on_bytes_that_are_not_packed_bcd"
+    if mn == "EXL":
+        return "EXL_block_exchange"
+    span = set(py["w"]) | set(data_reads)
+    if mn in ("MVL", "MVLD") and 0xFFFFF in span and cpu.IMEM in span:
+        return "external_block_run_crosses_the_top_of_the_address_space"
+    if mn in ("MVL", "MVLD") and k in ("56", "5e", "f3", "fb"):
+        return "rust_block_move_with_register_offset_operand_moves_one_byte"
+    if mn in ("MVL", "MVLD") and k in ("e3", "eb") and len(ob) > 1 and ob[1] >> 4 == 3:
+        return "block_move_with_predecrement_pointer_runs_the_other_way"
+    if mn in ("MVL", "MVLD") and set(data_reads) & (set(py["w"]) | set(rs["w"])):
+        return "block_move_with_overlapping_source_and_destination"
+    if mn == "JP" and k == "11" and len(ob) > 1 and (ob[1] & 7) < 4:
+        return "JP_through_8_or_16_bit_register"
+    if mn in ("MV", "MVW", "MVP") and k in ("b0", "b1", "b2", "b3", "b4", "b5", "b6", "b7") and len(ob) > 1 and (ob[1] >> 4) in (2, 3) and (ob[1] & 7) == int(k[1]):
+        return "store_of_pointer_register_through_itself_sees_the_updated_pointer"
+    if mn == "RET" and (case[1] + len(bs)) >> 16 != case[1] >> 16:
+        return "RET_page_taken_from_next_instruction_address"
     return "results_differ"
 
 
@@ -113,7 +163,7 @@ def run(ctx):
             continue
         fields = cpu.diff_fields(pp, pr)
         if fields:
-            fam = family(case, mn, pp, pr, fields, rd)
+            fam = family(case, mn, pp, pr, fields, rd, pm)
             ctx.report(["rs_py", fam] if fam == "instruction_overwrites_BP_PX_PY_it_addresses_with" else ["rs_py", fam, mn], f"{mn} ({case[0]} at {case[1]:#x}): Rust and Python differ in {fields}",
                        {"case": "exec1 " + l, "python": p[:400], "rust": r[:400], "fields": fields})
     ctx.extra.setdefault("disagreements", {})["model_vs_python"] = dis
